@@ -191,6 +191,16 @@ def fam_limit(seed, n_random, runs):
         calls += [{"limit": max(lims)}] * 3
         out.append(base("lim-rnd%d" % j, piped, unit, cap, inp, child, calls, runs=runs,
                         short=(rng.random() < 0.3)))
+    # an echoing child and far more input than the pipes hold: every size-limited read is cut short while input is still
+    # being delivered, which must go on -- exactly once -- in the later reads
+    for j, (unit, cap, lim) in enumerate([(4096, 2, 1), (4096, 3, 2), (2048, 4, 3), (1024, 8, 5)]):
+        k = 4096 // unit
+        n = 6 * cap
+        child = []
+        for _ in range(n):
+            child += [["rd", 1], ["wr", "out", 1]]
+        child += [["rd", 1], ["exit"]]
+        out.append(base("lim-echo%d" % j, ["in", "out"], unit, cap, n, child, [{"limit": lim}] * (n + 4), runs=runs * 2))
     return out
 
 
